@@ -2232,6 +2232,7 @@ def run_auth_scripts(
             )
             tape.contracts = contracts
             tape.plugins = plugins
+            cache.pop('returned', None)
             run_tape(tape, stack, cache)
             assert tape.has_terminated()
 
